@@ -111,10 +111,21 @@ def capacity(drv, extra=()):
         # registering callbacks on a fresh sandbox until the first refusal killed the executor: an observation
         vp.exit_ok(p, "capacity probe (%s)" % os.path.basename(drv).split("-")[0])
         return 64
-    if p.returncode != 0 or not p.stdout.strip().isdigit():
+    words = p.stdout.split()
+    if p.returncode != 0 or not words or not words[0].isdigit():
         raise vp.Broken("capacity probe failed: rc=%d %s" % (p.returncode, p.stderr[-300:]))
-    n = int(p.stdout.strip())
+    n = int(words[0])
+    if len(words) > 1 and words[1] == "bogus":
+        # registration number n+1 came back as an owner that claims to be registered but has no entry point of its own
+        # (null, or one handed out before): the table has n entries and the refusal is missing
+        BOGUS.append({"backend": os.path.basename(drv).split("-")[0], "accepted_without_entry_point": n + 1})
+        return n
     return n if n > 0 else 1000
+
+
+# registrations accepted without an entry point of their own, seen by the capacity probe (C13: "a registration for which
+# the backend has no free entry point is refused, never returned as an object that claims to be registered")
+BOGUS = []
 
 
 def replay(drv, wd, tag, lines, extra=()):
